@@ -587,6 +587,17 @@ pub fn run(run: &Run) {
         3,
         "empty-matching-pattern",
     );
+    // non-ASCII characters written literally in the pattern stand for their UTF-8
+    // bytes (quoted and raw forms alike)
+    regex_table_family(
+        run,
+        &eng,
+        "regex-non-ascii",
+        &["\u{e9}", "a\u{e9}", "\u{e9}a", "^\u{e9}$", "a|\u{e9}", "(\u{e9})a", "\u{e9}|\u{c3}", "a.\u{e9}", "[a]\u{e9}", "\u{c2}\u{a9}", "\u{e9}\u{e9}"],
+        &[b'a', 0xc3, 0xa9, 0x83, 0xc2],
+        4,
+        "non-ascii-pattern",
+    );
     // anchors in every position relative to alternation, groups and repetition: an
     // anchor constrains its own branch only, the search itself is never anchored
     regex_table_family(
